@@ -76,7 +76,7 @@ def no_bypass(rep, rule, f, loop, what):
 # ---------------------------------------------------------------------------
 # Gillespie_SIR / Gillespie_SIS
 # ---------------------------------------------------------------------------
-def _abstract_nbr_loop(loop, n_name, nbr_status):
+def _abstract_nbr_loop(loop, n_name, nbr_status, self_loop=False):
     """Execute the body of `for nbr in G.neighbors(n)` once, for a neighbour of
     status nbr_status (nbr != n assumed).  Returns the list of set operations
     [(set name, 'update'|'remove', key expr, weight expr or None)]."""
@@ -112,9 +112,9 @@ def _abstract_nbr_loop(loop, n_name, nbr_status):
                     return not eq
             if {l, r} == {nbr, n_name}:
                 if isinstance(op, ast.Eq):
-                    return False
+                    return self_loop
                 if isinstance(op, ast.NotEq):
-                    return True
+                    return not self_loop
         return None
 
     def run(body):
@@ -212,6 +212,21 @@ def r11_sir_sis(repo, rep, name):
                 rep.ob("R11", ok, inst + ": " + want, func=f, node=got[0][4] if got else nl,
                        construct="%s %s->%s nbr=%s %s: %s" % (name, old, new, s, tag, [(o[1], _key(o[2]), _key(o[3]) if o[3] is not None else None) for o in got]),
                        detail=det)
+        # a self-loop (nbr is the changed node itself): the loop sees the node's status as it is AT THAT POINT of the arm - the
+        # new one if the status write comes first, the old one otherwise - and must not touch the link set
+        at_loop = new if body.index(sw[0]) < body.index(nl) else old
+        try:
+            ops_self = _abstract_nbr_loop(nl, _key(n), at_loop, self_loop=True)
+        except AnalysisError:
+            ops_self = None
+        oks = ops_self is not None and not [o for o in ops_self if o[0] == "IS_links"]
+        nob += 1
+        rep.ob("R11", oks, "%s: event %s %s->%s, the node is its own neighbour (self-loop): no link is created or removed" % (name, _key(n), old, new),
+               func=f, node=nl, construct="%s %s->%s self-loop, status seen in the loop: %s, ops %s" % (
+                   name, old, new, at_loop, None if ops_self is None else [(o[1], _key(o[2])) for o in ops_self]),
+               detail="" if oks else "with a self-loop the neighbour loop reads status[%s] = '%s' (%s) and changes IS_links for the pair "
+               "(%s, %s): a node can then transmit to itself" % (_key(n), at_loop, "the status write comes after the loop" if at_loop == old
+                                                                   else "after the status write", _key(n), _key(n)))
         # infecteds maintenance
         calls = [c for st in body for c in ast.walk(st) if isinstance(c, ast.Call) and isinstance(c.func, ast.Attribute)
                  and _key(c.func.value) == "infecteds"]
